@@ -21,12 +21,17 @@ type StyleD struct {
 	UL        int            // 0 none .. 5 dashed
 	ULColor   tcell.Color
 	URL, URLI string
+	// ULViaAttr: the underline (UL must be 1) is requested through the attribute mask
+	// (Style.Attributes with AttrUnderline) instead of Style.Underline
+	ULViaAttr bool
 }
 
 // Style builds the tcell.Style for a descriptor.
 func (d StyleD) Style() tcell.Style {
 	s := tcell.StyleDefault.Foreground(d.Fg).Background(d.Bg).Attributes(d.Attrs)
-	if d.UL != 0 {
+	if d.ULViaAttr {
+		s = tcell.StyleDefault.Foreground(d.Fg).Background(d.Bg).Attributes(d.Attrs | tcell.AttrUnderline)
+	} else if d.UL != 0 {
 		s = s.Underline(tcell.UnderlineStyle(d.UL))
 	}
 	if d.ULColor != tcell.ColorDefault {
@@ -207,12 +212,32 @@ func lab(v int32) refc.Lab {
 
 // nearest returns the palette indices 0..n-1 whose CIE76 distance to rgb is minimal
 // (within a small tolerance).
+// xterm88 is the palette of xterm's 88-colour mode (88colres.h): the 16 ANSI colours, a 4x4x4
+// cube over the levels 00 8b cd ff, and 8 greys. It is NOT the first 88 entries of the
+// 256-colour table.
+func xterm88(i int) int32 {
+	switch {
+	case i < 16:
+		return refc.XtermRGB(i)
+	case i < 80:
+		lv := [4]int32{0x00, 0x8b, 0xcd, 0xff}
+		j := i - 16
+		return lv[j/16]<<16 | lv[(j/4)%4]<<8 | lv[j%4]
+	}
+	g := [8]int32{0x2e, 0x5c, 0x73, 0x8b, 0xa2, 0xb9, 0xd0, 0xe7}[i-80]
+	return g<<16 | g<<8 | g
+}
+
 func nearest(rgb int32, n int) []vt.Color {
 	best := 1e18
 	d := make([]float64, n)
 	l := lab(rgb)
 	for i := 0; i < n; i++ {
-		d[i] = refc.DeltaE76(l, lab(refc.XtermRGB(i)))
+		pv := refc.XtermRGB(i)
+		if n == 88 {
+			pv = xterm88(i)
+		}
+		d[i] = refc.DeltaE76(l, lab(pv))
 		if d[i] < best {
 			best = d[i]
 		}
